@@ -116,6 +116,9 @@ impl Stdfs {
         }
         for entry in Stdfs::entries(src.path())?.min_depth(1).sort_by_name().dirs() {
             let entry = entry?;
+            if entry.is_symlink() {
+                continue; // link exclusion like is_dir and is_file
+            }
             paths.push(entry.path_buf());
         }
         Ok(paths)
@@ -149,6 +152,9 @@ impl Stdfs {
         }
         for entry in Stdfs::entries(src.path())?.min_depth(1).sort_by_name().files() {
             let entry = entry?;
+            if entry.is_symlink() {
+                continue; // link exclusion like is_dir and is_file
+            }
             paths.push(entry.path_buf());
         }
         Ok(paths)
@@ -702,6 +708,9 @@ impl Stdfs {
         }
         for entry in Stdfs::entries(path)?.min_depth(1).max_depth(1).sort_by_name().dirs() {
             let entry = entry?;
+            if entry.is_symlink() {
+                continue; // link exclusion like is_dir and is_file
+            }
             paths.push(entry.path_buf());
         }
         Ok(paths)
@@ -797,6 +806,9 @@ impl Stdfs {
         }
         for entry in Stdfs::entries(path)?.min_depth(1).max_depth(1).sort_by_name().files() {
             let entry = entry?;
+            if entry.is_symlink() {
+                continue; // link exclusion like is_dir and is_file
+            }
             paths.push(entry.path_buf());
         }
         Ok(paths)
